@@ -137,6 +137,7 @@ def run(tier, replay=None):
                                     % (len(xmlmut.TOKENS_QUICK if quick else xmlmut.TOKENS), len(xmlmut.TAGS)),
                        "argv": "every argument vector of length <= %d over {--schema-name, --output-dir, --inject-include, --version, --help, --, -x, '', good.xml, missing.xml, dir/}" % (3 if quick else 4),
                        "includes": "self include, mutual include, missing file, directory, include of a valid file; every include graph over a root and two fragments with <= 2 includes each over %d targets" % (3 if quick else 5), "raw_inputs": [n for n, _ in xmlmut.RAW_INPUTS],
+                       "included_fragment": "the kinds seed with its <types> moved into an included file: every single mutation of that file (quick token set)",
                        "resource": "char constants / arrays / blockLength with declared sizes 70000 and 4294967295 in a header, dimension, ordinary composite and as public type; sbeppc-dbg under a 1.5 GB address-space limit, 300 s limit",
                        "build": "clang++ -O1 ASan+UBSan, sbeppc's own asserts and _GLIBCXX_ASSERTIONS on; 20 s limit per run"})
     jobs = []    # (label, opclass, argv builder)
@@ -179,6 +180,21 @@ def run(tier, replay=None):
             files = {"a.xml": '<?xml version="1.0"?><messageSchema package="p" id="1" version="0"><include href="b.xml"/><include href="c.xml"/></messageSchema>',
                      "b.xml": frag(bl), "c.xml": frag(cl), "g.xml": good}
             jobs.append(("include-graph: b->%s c->%s" % (list(bl), list(cl)), "include-graph-enum", "files", files, None))
+    # diagnostics located in an *included* file: the types of the kinds seed moved into a fragment that the root includes;
+    # every single mutation of the fragment (the validator reports most of them after the include has been merged, i.e.
+    # with a location that points into a file whose parser is gone -- mutant c09d kept a dangling view there)
+    import xml.etree.ElementTree as ET
+    kroot = ET.fromstring(ir.to_xml(k))
+    ktypes = [e for e in kroot if e.tag.endswith("types")][0]
+    frag = '<?xml version="1.0" encoding="UTF-8"?>\n' + ET.tostring(ktypes, encoding="unicode")
+    idx = list(kroot).index(ktypes)
+    kroot.remove(ktypes)
+    kroot.insert(idx, ET.Element("include", {"href": "t.xml"}))
+    root_xml = '<?xml version="1.0" encoding="UTF-8"?>\n' + ET.tostring(kroot, encoding="unicode")
+    jobs.append(("included-fragment: seed", "seed", "files", {"a.xml": root_xml, "t.xml": frag}, None))
+    for desc, opclass, xml in xmlmut.mutants(frag, quick=True, add=False):
+        if isinstance(xml, str):
+            jobs.append(("included-fragment: " + desc, "included:" + opclass, "files", {"a.xml": root_xml, "t.xml": xml}, None))
     # declared sizes that make the legitimate output huge: a char constant is emitted as a literal with one escape per
     # element, so its cost is linear in `length`; under a 1.5 GB address-space limit the allocation fails, which has to end
     # in a diagnostic like any other rejection (found by the c09c agent's notes: std::bad_alloc escaped main())
